@@ -144,16 +144,16 @@ func (w *rvWorld) Witness(idx int, e *big.Int) *Witness {
 }
 
 type rvSnap struct {
-	U, E          string
-	SaccPtr       *SignedAccumulator
-	Data          []byte
-	PKCounter     uint
-	AccIdx        uint64
-	AccTime       int64
-	AccNu         string
-	AccHash       []byte
-	Updated       time.Time
-	AccPtr        *Accumulator
+	U, E      string
+	SaccPtr   *SignedAccumulator
+	Data      []byte
+	PKCounter uint
+	AccIdx    uint64
+	AccTime   int64
+	AccNu     string
+	AccHash   []byte
+	Updated   time.Time
+	AccPtr    *Accumulator
 }
 
 func rvSnapshot(w *Witness) rvSnap {
